@@ -193,3 +193,9 @@ def list_eq(a, b):
         forall_int(0, l_len(a.t), lambda j: l_at(a.t, j) == l_at(b.t, j),
                    patterns=lambda j: [l_at(a.t, j), l_at(b.t, j)]),
     )
+
+
+def str_lt(a, b):
+    """Python's < on str values (uninterpreted here: only 'the same order everywhere' is used)"""
+    from .core import sort_of, TStr
+    return z3.Function("str_lt", sort_of(TStr), sort_of(TStr), z3.BoolSort())(a, b)
